@@ -446,7 +446,8 @@ impl Value {
     pub fn separator(&self) -> ListSeparator {
         match self {
             Value::List(_, list_separator, _) => *list_separator,
-            Value::Map(..) | Value::ArgList(..) => ListSeparator::Comma,
+            Value::Map(map) => map.separator(),
+            Value::ArgList(..) => ListSeparator::Comma,
             _ => ListSeparator::Space,
         }
     }
